@@ -265,7 +265,28 @@ def c16():
                              'and must satisfy the same oracles with no library assertion reachable.')
 
 
-REGISTRY = {'C16': c16, 'C02': c02, 'C01': c01, 'C07': c07, 'C11': c11, 'C12': c12, 'C15': c15}
+MX_HOOK = '__CPROVER_assert(ir2c_mutex_held == 1, "C13: the inner index is entered only with the index mutex held");'
+
+
+def c13():
+    u = U('mx.cpp', defines=['UNODB_DETAIL_VERIF_FIXED_ITER_STACK=6'], max_node_type=1,
+          stubs=['tag_ptr', 'node_type', 'node_ptr', 'lib_abort', 'keybuf_noop'],
+          noinline=['@_ZN5unodb6detail10key_buffer(4push|3pop)E',
+                    '@_ZNK?5unodb2dbImSt4spanIKSt4byteLm18446744073709551615EEE(12get_internal|15insert_internal|15remove_internal|5clearEv|5emptyEv|4scan)'],
+          entry_hooks=[(r'^unodb::db<.*>::(get_internal|insert_internal|remove_internal|clear|empty|scan)', MX_HOOK)])
+    lb = [('::(get|insert|remove)_internal', 3), (r'iterator::(left_most|right_most)_traversal', 3), (r'iterator::(next|prior|seek)', 4)]
+    qs = [Query('mx-' + h, u, 'mx_' + h, unwind=10, flags=['--slice-formula'], loop_bounds=lb,
+                about='mutex_db over a 3-entry tree: %s with a fully symbolic key; ghost mutex state checked at every inner-index entry and every return' % h,
+                bounds={'prelude': 'i4_3', 'symbolic_ops': 1, 'key_bits': 64}) for h in ('get', 'insert', 'remove', 'scan_clear')]
+    return Check('C13', 'model_checking', qs,
+                 assumptions=['pthread_mutex_lock/unlock are modelled by a ghost owner flag with assertions "not already held" / "held on unlock" (trusted mutex semantics)',
+                              'entry hooks (injected by the translator, by demangled name) assert the ghost flag at the start of db::get_internal/insert_internal/remove_internal/clear/empty/scan',
+                              'atomicity/linearizability under free-running threads is an argument from the lock discipline plus the trusted mutex, not a solver result; thread schedules are not explored'],
+                 explanation='Lock discipline of every public mutex_db method for all keys: inner index only entered under the mutex, mutex released on return, '
+                             'get() hands the lock to the caller exactly on a hit and the handle releases it on destruction.')
+
+
+REGISTRY = {'C13': c13, 'C16': c16, 'C02': c02, 'C01': c01, 'C07': c07, 'C11': c11, 'C12': c12, 'C15': c15}
 
 
 def get(pid):
